@@ -1,9 +1,11 @@
 (* C16 — Flood protection bounds the send rate.
    Only statements here; proofs live in Proofs/RateProofs.v.  The model (Model/Rate.v)
-   mirrors conn.go: `rate` is ircConn.rate on nanoseconds in Z, `run` a sequence of rate
-   calls against arbitrary clock readings, `run_sync` one sender whose events are each
-   stamped by sendLoop before the next Send, `step`/`exec` the client as a machine in which
-   rate calls, enqueues and sendLoop deliveries interleave. *)
+   mirrors conn.go as repaired ("the flood limiter credits elapsed time only once"): `rate`
+   is ircConn.rate on nanoseconds in Z, `run` a sequence of rate calls against arbitrary
+   forgiven times, `run_sync` one sender whose events are each stamped by sendLoop before
+   the next Send, `step`/`exec` the client as a machine in which rate calls, enqueues and
+   sendLoop deliveries interleave.  The arithmetic before the repair and the schedule on
+   which it failed: Spec/RateBeforeRepair.v, Proofs/RateBeforeRepairProofs.v. *)
 Require Import Bytes Rate RateProofs.
 Open Scope Z_scope.
 
@@ -15,8 +17,8 @@ Theorem C16_delay_is_cost : forall s now chars,
   (threshold < wd s' -> d = cost chars) /\
   (wd s' <= threshold -> d = 0) /\
   0 <= wd s' /\
-  wd s' = Z.max 0 (wd s + cost chars - (now - last s)) /\
-  last s' = last s.
+  wd s' = Z.max 0 (wd s + cost chars - (now - Z.max (last s) (lastr s))) /\
+  last s' = last s /\ lastr s' = now.
 Proof. exact delay_is_cost. Qed.
 Print Assumptions C16_delay_is_cost.
 
@@ -47,58 +49,56 @@ Theorem C16_bucket_burst : forall w cs ch,
 Proof. exact bucket_burst. Qed.
 Print Assumptions C16_bucket_burst.
 
+(* ---- the hold clause, full strength --------------------------------------------------- *)
+(* "Once the client has used its initial burst allowance every further event passed to Send
+   is held for at least its cost": for EVERY schedule of rate calls, enqueues and sendLoop
+   deliveries whose clock readings do not run backwards — any number of senders, any delay
+   of sendLoop in stamping lastWrite — a rate call made when the cost charged so far
+   (accumulated delay at the start + all events rated, this one included) exceeds 8 s plus
+   ALL the real time elapsed since the start is returned exactly the event's cost.
+   (Satisfiable: hold_all_schedules_sat.  The sleep itself — time.After never fires early —
+   and the program order of one goroutine's actions are outside the model.) *)
+Theorem C16_hold : forall acts now e r0,
+  0 <= wd r0 -> 0 <= ev_len e -> lens_ok acts ->
+  monotone (Z.max (last r0) (lastr r0)) (acts ++ [ARate now e]) ->
+  threshold + (now - Z.max (last r0) (lastr r0)) < wd r0 + charged (acts ++ [ARate now e]) ->
+  snd (step (fst (exec (sys0 r0) acts)) (ARate now e)) = Some (cost (ev_len e)).
+Proof. exact hold_all_schedules. Qed.
+Print Assumptions C16_hold.
+
 (* ---- one sender, each event stamped by sendLoop before the next Send ---------------- *)
 (* (gap, chars, slack) per event: all non-negative.  After any number of events the cost
-   written fits in 8 s plus the real time elapsed: at most 8 + t/1s lines by time t. *)
-Theorem C16_wallclock : forall steps s,
-  0 <= wd s <= threshold -> Forall step_ok steps ->
+   written fits in 8 s plus the real time elapsed: at most 8 + t/1s lines by time t.
+   Full strength would be: the same bound on lines for ANY number of concurrent senders
+   ("sustained output never exceeds about one short message per second ... from several
+   goroutines").  That is not true of the code, by design: each held event sleeps its own
+   cost concurrently, so N senders obtain N lines per cost interval — every one of them
+   held for its cost (C16_hold).  Proved: the bound for one sender. *)
+Theorem C16_wallclock_partial : forall steps s,
+  sync_state s -> wd s <= threshold -> Forall step_ok steps ->
   let t := last (fst (run_sync s steps)) - last s in
   wd s + sum_cost3 steps <= threshold + t /\
   Z.of_nat (length steps) * second <= threshold + t.
 Proof. exact wallclock_sync. Qed.
-Print Assumptions C16_wallclock.
+Print Assumptions C16_wallclock_partial.
 
-Theorem C16_wallclock_prefix : forall a b s,
-  0 <= wd s <= threshold -> Forall step_ok (a ++ b) ->
+Theorem C16_wallclock_prefix_partial : forall a b s,
+  sync_state s -> wd s <= threshold -> Forall step_ok (a ++ b) ->
   snd (run_sync s a) = firstn (length a) (snd (run_sync s (a ++ b))) /\
   Z.of_nat (length a) * second <= threshold + (last (fst (run_sync s a)) - last s).
 Proof. exact wallclock_sync_prefix. Qed.
-Print Assumptions C16_wallclock_prefix.
+Print Assumptions C16_wallclock_prefix_partial.
 
-(* The hold clause of the statement ("once the client has used its initial burst allowance
-   every further event passed to Send is held for at least its cost"), full strength:
-   `hold_clause` in Proofs/RateProofs.v — for EVERY schedule of rate calls, enqueues and
-   sendLoop deliveries, a rate call made when the cost charged so far exceeds 8 s plus all
-   the real time elapsed since the last write returns the event's cost.
-   Proved: the clause for one sender whose events are each stamped by sendLoop before the
-   next Send (C16_hold_partial).  Missing: senders that reach the next rate call before
-   sendLoop has stamped the previous event — and there the clause is FALSE of the code as it
-   is (C16_hold_refuted, C16_stale_burst_unheld; replayed on the Go code by suite rate.wire,
-   oracle class tight-burst-unthrottled; notes/proposed-fixes/rate-credits-elapsed-time-once.diff). *)
-Theorem C16_hold_partial : forall a s gap chars slack,
-  0 <= wd s -> Forall step_ok (a ++ [(gap, chars, slack)]) ->
+(* every held event of that sender is stamped no earlier than its cost after its Send *)
+Theorem C16_hold_sync : forall a s gap chars slack,
+  sync_state s -> Forall step_ok (a ++ [(gap, chars, slack)]) ->
   let s1 := fst (run_sync s a) in
   let now := last s1 + gap in
   threshold + (now - last s) < wd s + sum_cost3 (a ++ [(gap, chars, slack)]) ->
   snd (run_sync s (a ++ [(gap, chars, slack)])) =
   snd (run_sync s a) ++ [(now, cost chars, now + cost chars + slack)].
 Proof. exact hold_sync. Qed.
-Print Assumptions C16_hold_partial.
-
-Theorem C16_hold_refuted : ~ hold_clause.
-Proof. exact hold_clause_refuted. Qed.
-Print Assumptions C16_hold_refuted.
-
-(* after an idle period of one event's cost, ANY number of such events sent back to back
-   before sendLoop runs are all returned delay 0 and queued at that one instant *)
-Theorem C16_stale_burst_unheld : forall idle len ids s,
-  cost len <= idle -> rs s = mkR 0 0 ->
-  snd (exec s (stale_burst idle len ids)) = repeat 0 (length ids) /\
-  rs (fst (exec s (stale_burst idle len ids))) = mkR 0 0 /\
-  tx (fst (exec s (stale_burst idle len ids))) = tx s ++ map (fun i => mkE 0 i len) ids /\
-  wire (fst (exec s (stale_burst idle len ids))) = wire s.
-Proof. exact stale_burst_unheld. Qed.
-Print Assumptions C16_stale_burst_unheld.
+Print Assumptions C16_hold_sync.
 
 (* ---- bypass ------------------------------------------------------------------------- *)
 (* a schedule fragment without a rate call returns no delay and leaves writeDelay alone;
